@@ -157,3 +157,29 @@ def net_state(net):
               for t in net.conns if not t.lost),
         len(net.pending), net.auto,
     )
+
+
+class debug_logging:
+    """Context manager: the application has switched the library's loggers to DEBUG (into a handler that discards).
+    Log level is configuration like any other: no reading, frame or decision may depend on it."""
+
+    def __enter__(self):
+        import logging
+        self._prev_disable = logging.root.manager.disable
+        logging.disable(logging.NOTSET)
+        self._lg = logging.getLogger("pyairtouch")
+        self._prev_level = self._lg.level
+        self._prev_prop = self._lg.propagate
+        self._h = logging.NullHandler()
+        self._lg.addHandler(self._h)
+        self._lg.setLevel(logging.DEBUG)
+        self._lg.propagate = False
+        return self
+
+    def __exit__(self, *exc):
+        import logging
+        self._lg.removeHandler(self._h)
+        self._lg.setLevel(self._prev_level)
+        self._lg.propagate = self._prev_prop
+        logging.disable(self._prev_disable)
+        return False
